@@ -329,7 +329,10 @@ pub fn run_handshake(body: &[Sexp]) -> String {
     let in_cb_tx = Mutex::new(in_cb_tx);
     let stuck = Arc::new(AtomicBool::new(false));
     let s2 = stuck.clone();
+    let got: Arc<Mutex<Vec<i32>>> = Arc::default();
+    let g2 = got.clone();
     let cb = move |v: i32| {
+      g2.lock().unwrap().push(v);
       if v == 1 {
         let _ = in_cb_tx.lock().unwrap().send(());
         if returned_rx.lock().unwrap().recv_timeout(Duration::from_secs(3)).is_err() {
@@ -351,10 +354,19 @@ pub fn run_handshake(body: &[Sexp]) -> String {
       let _ = returned_tx.send(());
     });
     let _ = producer.join();
-    std::thread::sleep(Duration::from_millis(2));
+    // both items were handed over: both must arrive (in whatever order the pool runs their tasks)
+    let t0 = std::time::Instant::now();
+    while got.lock().unwrap().len() < 2 && t0.elapsed() < Duration::from_secs(3) {
+      std::thread::sleep(Duration::from_millis(2));
+    }
     std::mem::forget(keep);
     if stuck.load(Ordering::SeqCst) {
       return "next() did not return while a delivery scheduled earlier was still running on a pool thread".into();
+    }
+    let mut g = got.lock().unwrap().clone();
+    g.sort();
+    if g != vec![1, 2] {
+      return format!("items 1 and 2 were handed to the operator on a thread pool, delivered: {:?}", g);
     }
   }
   "ok".into()
